@@ -100,6 +100,9 @@ SV make(const Buf &b)
 template <class SV>
 json bytes_of(const SV &v, const Conc &cc)
 {
+  // a view longer than anything the model contains is reported by its size, never read
+  if (v.size() > 16)
+    return "a view of size " + std::to_string(v.size());
   json a = json::array();
   for (size_t i = 0; i < v.size(); ++i)
     a.push_back(cc.abs_of(static_cast<unsigned char>(v.data()[i])));
@@ -121,6 +124,7 @@ struct SvWorld
   static constexpr bool is_nostd = std::is_same<SV, nostd::string_view>::value;
   Conc cc;
   int maxlen;
+  int bigsel = 0;
   std::vector<uint64_t> posv;   // concrete values for the abstract positions (without BIG)
 
   // result of f for an abstract position list: BIG expands to every big value, which must all agree
@@ -131,6 +135,8 @@ struct SvWorld
     o["b"]     = bytes_of(b, cc);
     o["size"]  = a.size();
     o["empty"] = tf(a.empty());
+    if (a.size() > 16 || b.size() > 16)
+      return o;   // the size is already wrong; nothing else can be observed safely
     // the same bytes through the other accessors
     {
       json it = json::array();
@@ -172,9 +178,12 @@ struct SvWorld
     auto each_pos = [&](size_t idx, const std::function<json(uint64_t)> &f) -> json {
       if (idx + 1 < np)
         return f(posv[idx]);
+      // three of the six representatives per concretisation (npos always among them)
       json first;
       for (int k = 0; k < kNBig; ++k)
       {
+        if (k != 0 && (k + bigsel) % 2)
+          continue;
         json r = f(kBig[k]);
         if (k == 0)
           first = r;
@@ -282,6 +291,7 @@ void run_world(const Case &c, int world)
   Rng rng(c.seed);
   SvWorld<SV> w;
   w.maxlen = beh["cfg"]["maxlen"];
+  w.bigsel = rng.pick(2);
   for (int i = 0; i <= w.maxlen + 1; ++i)
     w.posv.push_back(static_cast<uint64_t>(i));
   const unsigned char *m = kMaps[rng.pick(5)];
@@ -319,6 +329,7 @@ void run_world(const Case &c, int world)
       if (thr != st["throws"].get<std::string>())
       {
         g_shm->findings++;
+          g_shm->bad++;
         emit({{"r", world == 0 ? "mismatch" : "stdspec"}, {"m", c.m}, {"id", c.id}, {"inst", c.inst},
               {"step", static_cast<long>(k)}, {"op", op}, {"path", "/throws"}, {"exp", st["throws"]}, {"obs", thr},
               {"what", std::string(world == 0 ? "nostd" : "std") + ": substr(" + std::to_string(pos) + "," +
